@@ -25,6 +25,10 @@ spec fn plain_reads_back(b: Seq<u8>, in_flow: bool) -> bool {
     &&& (forall|i: int| 0 <= i < b.len() ==> !(#[trigger] b[i] == 0x3a && (i + 1 == b.len() || yb_blank(b[i + 1]))))
     &&& (forall|i: int| 0 < i < b.len() ==> !(#[trigger] b[i] == 0x23 && yb_blank(b[i - 1])))
     &&& (in_flow ==> forall|i: int| 0 <= i < b.len() ==> !yb_flow_indicator(#[trigger] b[i]))
+    // reader behaviour, not a YAML rule: inside a flow collection this crate's reader (saphyr-parser) takes a `-` that
+    // follows a blank and is followed by `,` `]` `}` for the start of a new token and rejects the document
+    // ("plain scalar cannot start with '-' followed by ,[]{}"), so a flow entry must not END in blank + `-`
+    &&& (in_flow ==> !(b.len() >= 2 && b.last() == 0x2d && yb_blank(b[b.len() - 2])))
 }
 
 spec fn pl_is_cc(c: char) -> bool { (c as u32) <= 0x1F || (0x7F <= (c as u32) && (c as u32) <= 0x9F) }
